@@ -161,6 +161,17 @@ def run(ctx):
             except Exception:  # noqa
                 break
     ctx.count('proposals checked', total)
+    # TIE-C for Model/CoreRw.v (structural mutators, LetElimination, candidate names of SimplifySymbolNames): the theorems of
+    # Props/CoreRw.v (closure, size/disorder measure, names) speak about these models
+    import corecorr
+    ok, log = common.build_driver()
+    if not ok:
+        raise common.BuildError(log[-3000:])
+    ctexts = list(extra_inputs) + targeted[:(len(targeted) if ctx.thorough else 40)]
+    for _ in range(40 if ctx.thorough else 8):
+        g, cmds = smtgen.gen_script(rng, nasserts=rng.choice([2, 3]), depth=rng.choice([2, 3]))
+        ctexts.append(smtgen.script_text(cmds))
+    corecorr.run(ctx, impl, common.Model(), rng, ctexts)
     ctx.extra['proposals_per_mutator'] = dict(sorted(per_mut.items()))
     ctx.extra['mutators_never_exercised'] = sorted(set(c for _, c, _ in P.all_mutators()) - set(per_mut))
     ctx.assumptions += ['inputs are well-sorted scripts of the typed generator and their partially reduced forms']
